@@ -88,6 +88,8 @@ def make_conn_class(h):
             self.close_calls = 0
 
         def close(self):
+            if h.armed and h.depth == 0 and sys._getframe(1).f_code.co_name == 'shutdown' and h.pool._connection is self:
+                h.hook('closemain')     # shutdown(): middle, unlocked region
             self.close_calls += 1
             self.is_closed = True
             h.on_close(self, sys._getframe(1).f_code.co_name)
